@@ -14,10 +14,10 @@ PROP = 'C18'
 META = dict(
     explanation='Strings (symx): rows of 1-3 fields whose string characters are solver variables over the whole str alphabet except newline (field lengths concrete: every split of <= 3 characters over the fields, empty fields included), '
                 'mixed with bool and small-int fields, are written by the real csv.dump and read back by the real csv.load(create_line_parser(dtype)) with separators , ; | tab and the two-character || and two escape characters: rows must come back equal field by field. '
-                'Numbers (z3x): the current source of parse_decimal is re-executed on z3 terms - the decimal text str() prints for a double (sign, integer digits, fraction digits, no trailing zero) is symbolic, int()/float()/len()/split() are term-building shims, '
+                'Numbers (z3x): the current source of parse_decimal is re-executed on z3 terms - the decimal text str() prints for a double (sign, integer digits, fraction digits, no trailing zero) is symbolic, int()/float()/len()/split()/partition()/lstrip()/isdigit()/startswith() are term-building shims, branches on the sign are explored path by path, '
                 'int/int division, float() and + are IEEE binary64 operations - and z3 decides whether the result can differ (value or sign) from the correctly rounded value of that text; exponent forms must take the float() fall-back. '
                 'parse_int on symbolic digit strings, and its current source on terms for integers of up to 19 digits (whatever it composes from int() / float() must give back the exact integer). File form: dump_to_file / load_from_file over a file object whose read() stops short at solver-chosen positions (a chunk boundary anywhere, including inside a quoted field).',
-    bounds=dict(quick='strings: <= 3 characters in total over <= 3 fields; ints from {-20,0,7,None}; decimals: |integer part| < 1000, 1..4 fraction digits (all such doubles as printed by str()); file form: 2 rows with one symbolic character, short reads at c1 and c1+1 for every position c1 of the file (one obligation each): a one-character chunk follows a partial line',
+    bounds=dict(quick='strings: <= 3 characters in total over <= 3 fields; ints from {-20,0,7,None}; decimals: |integer part| < 1000, 1..4 fraction digits (all such doubles as printed by str()), and 16-17 significant digits in five integer/fraction splits (digits as one integer above 2^53; the exact quotient modelled with a (72+4k)-bit significand); file form: 2 rows with one symbolic character, short reads at c1 and c1+1 for every position c1 of the file (one obligation each): a one-character chunk follows a partial line',
                 thorough='strings: <= 4 characters; decimals: integer part < 10^6, 1..6 fraction digits; cvc5 cross-check of every z3x query'),
     outside='str(float) itself and float(str) (C code: modelled as correctly rounded, which is their documented contract); floats printed in exponent form beyond the fall-back check; more columns / longer strings than the bound; custom newline',
     assumptions=['float(text) is the correctly rounded binary64 value of the decimal text (CPython contract)', 'file objects may return short reads (ShortReadFile contract stub, validated with a real 200 KiB file)'],
@@ -153,10 +153,24 @@ def file_form(p):
 # ---------------------------------------------------------------- z3x: parse_decimal on terms
 
 class Decimal(object):
-    """direct obligation: parse_decimal's current source executed on terms for texts <sign><I>.<F with k digits>"""
+    """direct obligation: parse_decimal's current source executed on terms for texts <sign><I>.<F with k digits>.
+    The text is an object whose string operations (len, split / partition at the dot, startswith / lstrip of the sign, isdigit, concatenation of the digit
+    groups) answer over the terms neg, I, F; int() of a digit group is its exact value, float() of a digit string is the correctly rounded value (the
+    contract of float(str)), arithmetic on the results is IEEE binary64, round to nearest even.  Branches on the sign are explored path by path."""
 
     def __init__(self, p):
         self.p = p
+
+    def _exact(self, z3, N, k):
+        """the correctly rounded quotient N / 10^k.  While N < 2^53 one binary64 division of exact operands is correctly rounded by definition; beyond, the
+        division is carried out with a significand wide enough to hold N exactly and to make the second rounding harmless: a quotient N / 10^k that is not a
+        binary64 rounding boundary differs from every boundary by more than 2^-(54 + 3.33 k) relative, far above the 2^-(72 + 4 k) error of the wide division"""
+        F64, RNE = z3.Float64(), z3.RNE()
+        if self.p['idigits'] + k <= 15:
+            return z3.fpDiv(RNE, z3.fpSignedToFP(RNE, N, F64), z3.FPVal(10 ** k, F64))
+        W = z3.FPSort(15, 72 + 4 * k)
+        wide = z3.fpDiv(RNE, z3.fpSignedToFP(RNE, N, W), z3.fpSignedToFP(RNE, z3.BitVecVal(10 ** k, 128), W))
+        return z3.fpToFP(RNE, wide, F64)
 
     def _terms(self):
         import z3
@@ -166,93 +180,224 @@ class Decimal(object):
         neg = z3.Bool('neg')
         I = z3.BitVec('I', 64)
         Fr = z3.BitVec('F', 64)
-        fallback = []
+        N = I * (10 ** k) + Fr
+        q = self._exact(z3, N, k)
+        exact = z3.If(neg, z3.fpNeg(q), q)
+
+        def fl(o):
+            if isinstance(o, ZFloat):
+                return o.t
+            if isinstance(o, ZInt):
+                return z3.fpSignedToFP(RNE, o.bv, F64)
+            if isinstance(o, bool):
+                raise TypeError('bool operand')
+            if isinstance(o, (int, float)):
+                return z3.FPVal(o, F64)
+            raise TypeError('unsupported operand %r' % (type(o).__name__,))
 
         class ZInt(object):
             def __init__(self, bv):
                 self.bv = bv
 
-            def __truediv__(self, other):
-                if not isinstance(other, int):
-                    raise TypeError('unsupported divisor')
-                return ZFloat(z3.fpDiv(RNE, z3.fpSignedToFP(RNE, self.bv, F64), z3.FPVal(other, F64)))
+            def _bv(self, o):
+                if isinstance(o, ZInt):
+                    return o.bv
+                if isinstance(o, int) and not isinstance(o, bool) and -2 ** 62 < o < 2 ** 62:
+                    return z3.BitVecVal(o, 64)
+                return None
+
+            def __add__(self, o):
+                b = self._bv(o)
+                return ZInt(self.bv + b) if b is not None else ZFloat(z3.fpAdd(RNE, fl(self), fl(o)))
+            __radd__ = __add__
+
+            def __sub__(self, o):
+                b = self._bv(o)
+                return ZInt(self.bv - b) if b is not None else ZFloat(z3.fpSub(RNE, fl(self), fl(o)))
+
+            def __neg__(self):
+                return ZInt(-self.bv)
+
+            def __truediv__(self, o):
+                return ZFloat(z3.fpDiv(RNE, fl(self), fl(o)))
+
+            def __lt__(self, o):
+                return self.bv < self._bv(o)
+
+            def __ge__(self, o):
+                return self.bv >= self._bv(o)
 
         class ZFloat(object):
             def __init__(self, t):
                 self.t = t
 
             def __add__(self, o):
-                if isinstance(o, ZFloat):
-                    return ZFloat(z3.fpAdd(RNE, self.t, o.t))
-                if isinstance(o, int):
-                    return ZFloat(z3.fpAdd(RNE, self.t, z3.FPVal(o, F64)))
-                return NotImplemented
+                return ZFloat(z3.fpAdd(RNE, self.t, fl(o)))
             __radd__ = __add__
 
-        class Part(object):
-            def __init__(self, kind):
-                self.kind = kind
+            def __sub__(self, o):
+                return ZFloat(z3.fpSub(RNE, self.t, fl(o)))
+
+            def __rsub__(self, o):
+                return ZFloat(z3.fpSub(RNE, fl(o), self.t))
+
+            def __mul__(self, o):
+                return ZFloat(z3.fpMul(RNE, self.t, fl(o)))
+            __rmul__ = __mul__
+
+            def __truediv__(self, o):
+                return ZFloat(z3.fpDiv(RNE, self.t, fl(o)))
+
+            def __neg__(self):
+                return ZFloat(z3.fpNeg(self.t))
+
+        class Digits(object):
+            """a run of text: kinds 'int' (sign and integer digits), 'absint' (integer digits), 'frac' (fraction digits), or a concatenation of those"""
+
+            def __init__(self, kinds):
+                self.kinds = kinds
 
             def __len__(self):
-                return k if self.kind == 'frac' else idig
+                n = 0
+                for kd in self.kinds:
+                    n += k if kd == 'frac' else idig
+                    if kd == 'int' and bool(neg):          # a decision on the sign
+                        n += 1
+                return n
+
+            def __add__(self, o):
+                if isinstance(o, Digits) and 'int' not in o.kinds and o.kinds != []:
+                    return Digits(self.kinds + o.kinds)
+                raise TypeError('unsupported concatenation')
+
+            def startswith(self, pfx):
+                if pfx == '-' and self.kinds[:1] == ['int']:
+                    return neg
+                raise TypeError('unsupported startswith(%r)' % (pfx,))
+
+            def lstrip(self, chars=None):
+                if chars == '-' and self.kinds[:1] == ['int']:
+                    return Digits(['absint'] + self.kinds[1:])
+                if chars in ('-', '+', '+-', '-+') and self.kinds[:1] == ['absint']:
+                    return self
+                raise TypeError('unsupported lstrip(%r)' % (chars,))
+
+            def isdigit(self):
+                if self.kinds[:1] == ['int']:
+                    return z3.Not(neg)
+                return True
+            isdecimal = isdigit
+            isnumeric = isdigit
+
+            def value(self):
+                """(signed 64-bit value of the digit string, number of fraction digits it ends with)"""
+                if self.kinds in (['int'], ['absint']):
+                    v = I
+                elif self.kinds == ['frac']:
+                    v = Fr
+                elif self.kinds in (['int', 'frac'], ['absint', 'frac']):
+                    v = N
+                else:
+                    raise TypeError('unsupported digit string %r' % (self.kinds,))
+                return z3.If(neg, -v, v) if self.kinds[0] == 'int' else v
 
         class Text(object):
             def __len__(self):
-                return idig + 1 + k
+                return idig + 1 + k + (1 if bool(neg) else 0)
 
-            def split(self, sep):
+            def split(self, sep=None, maxsplit=-1):
                 if sep != '.':
-                    raise ValueError('unexpected separator')
-                return [Part('int'), Part('frac')]
-        N = I * (10 ** k) + Fr
-        q = z3.fpDiv(RNE, z3.fpSignedToFP(RNE, N, F64), z3.FPVal(10 ** k, F64))
-        exact = z3.If(neg, z3.fpNeg(q), q)
+                    raise TypeError('unsupported separator')
+                return [Digits(['int']), Digits(['frac'])]
 
-        def zint(x):
-            if isinstance(x, Part):
-                return ZInt(z3.If(neg, -I, I)) if x.kind == 'int' else ZInt(Fr)
-            return int(x)
+            def partition(self, sep):
+                if sep != '.':
+                    raise TypeError('unsupported separator')
+                return (Digits(['int']), '.', Digits(['frac']))
+            rpartition = partition
+
+            def startswith(self, pfx):
+                if pfx == '-':
+                    return neg
+                raise TypeError('unsupported startswith(%r)' % (pfx,))
+
+            def __contains__(self, ch):
+                if ch == '.':
+                    return True
+                if isinstance(ch, str) and len(ch) == 1 and ch in 'eEnNiI+_ ':
+                    return False
+                raise TypeError('unsupported membership test %r' % (ch,))
+
+        def zint(x, *a):
+            if isinstance(x, Digits) and not a:
+                return ZInt(x.value())
+            if isinstance(x, (Text, ZFloat, ZInt)):
+                raise TypeError('unsupported int() argument')
+            return int(x, *a)
 
         def zfloat(x):
             if isinstance(x, ZInt):
                 return ZFloat(z3.fpSignedToFP(RNE, x.bv, F64))
+            if isinstance(x, ZFloat):
+                return x
+            if isinstance(x, Digits):
+                # float() of an integer literal: the correctly rounded value of the integer; the sign of "-0" is kept
+                v = z3.fpSignedToFP(RNE, x.value(), F64)
+                if x.kinds[0] == 'int':
+                    v = z3.If(z3.And(neg, x.value() == 0), z3.fpNeg(z3.FPVal(0.0, F64)), v)
+                return ZFloat(v)
             if isinstance(x, Text):
-                fallback.append(1)
                 return ZFloat(exact)      # contract of float(str): correctly rounded
             return float(x)
         fn, src = z3x.reexec(csv.parse_decimal, dict(int=zint, float=zfloat))
-        res = fn(Text())
-        if not isinstance(res, ZFloat):
-            raise TypeError('parse_decimal returned %r on terms' % (res,))
         pre = [z3.ULT(I, 10 ** idig), z3.ULT(Fr, 10 ** k)]
         if k > 1:
             pre.append(z3.URem(Fr, 10) != 0)       # str(float) prints no trailing zero
         if idig > 1:
             pre.append(z3.UGE(I, 10 ** (idig - 1)))   # no leading zero
-        return res.t, exact, pre, (neg, I, Fr), src
+        if self.p.get('dyadic'):
+            # only texts whose value is a binary64 number (N / 10^k with 5^k | N, N / 5^k below 2^53): such a text IS what str() prints for that float
+            pre += [z3.URem(N, 5 ** k) == 0, z3.ULT(z3.UDiv(N, 5 ** k), 2 ** 53)]
+
+        def run():
+            res = fn(Text())
+            if not isinstance(res, ZFloat):
+                raise TypeError('parse_decimal returned %r on terms' % (res,))
+            return res.t
+        return run, exact, pre, (neg, I, Fr), src
 
     def __call__(self):
         import z3
         from vp import z3x
         q = z3x.Queries(cross_check=self.p.get('cross', False))
-        res, exact, pre, (neg, I, Fr), src = self._terms()
-        differ = z3.Not(z3.And(z3.fpEQ(res, exact), z3.fpIsNegative(res) == z3.fpIsNegative(exact)))
-        r, m = q.check('parse_decimal k=%d idigits=%d' % (self.p['k'], self.p['idigits']), pre + [differ], timeout_s=self.p.get('timeout', 120), logic='QF_BVFP')
-        out = dict(paths=0, solver_queries=q.n, solver_s=round(q.solver_s, 3), queries=q.log, encoded=['rxsci/container/csv.py:parse_decimal (source re-executed on z3 terms)'])
+        run, exact, pre, (neg, I, Fr), src = self._terms()
+        paths, complete = z3x.explore(run, q, max_paths=16)
+        out = dict(paths=len(paths), encoded=['rxsci/container/csv.py:parse_decimal (source re-executed on z3 terms)'])
+        verdict = 'CONFIRMED' if complete else 'INCONCLUSIVE'
+        reason = None if complete else 'more than 16 paths through parse_decimal'
+        for pc, res in paths:
+            differ = z3.Not(z3.And(z3.fpEQ(res, exact), z3.fpIsNegative(res) == z3.fpIsNegative(exact)))
+            if res.eq(exact):
+                continue
+            r, m = q.check('parse_decimal k=%d idigits=%d' % (self.p['k'], self.p['idigits']), pre + list(pc) + [differ], timeout_s=self.p.get('timeout', 120), logic='QF_BVFP')
+            if r == 'unsat':
+                continue
+            if r == 'sat':
+                text = ('-' if z3.is_true(m.eval(neg, model_completion=True)) else '') + str(m.eval(I, model_completion=True).as_long()) + '.' + str(m.eval(Fr, model_completion=True).as_long()).zfill(self.p['k'])
+                rp = self.replay([text])
+                out['cex'] = dict(args=[text], kwargs={})
+                if rp['reproduced']:
+                    verdict, reason = 'REFUTED', None
+                    out['detail'] = rp['detail']
+                    break
+                verdict, reason = 'INCONCLUSIVE', 'spurious: model %r does not reproduce on the real parse_decimal (%s)' % (text, rp.get('detail'))
+            else:
+                verdict, reason = 'INCONCLUSIVE', 'solver answered %s' % r
+        out.update(solver_queries=q.n, solver_s=round(q.solver_s, 3), queries=q.log, verdict=verdict)
         if q.disagree:
             out.update(verdict='INCONCLUSIVE', reason='z3 and cvc5 disagree on %s' % q.disagree)
-        elif r == 'unsat':
-            out.update(verdict='CONFIRMED')
-        elif r == 'sat':
-            text = ('-' if z3.is_true(m.eval(neg, model_completion=True)) else '') + str(m.eval(I, model_completion=True).as_long()) + '.' + str(m.eval(Fr, model_completion=True).as_long()).zfill(self.p['k'])
-            rp = self.replay([text])
-            out['cex'] = dict(args=[text], kwargs={})
-            if rp['reproduced']:
-                out.update(verdict='REFUTED', detail=rp['detail'])
-            else:
-                out.update(verdict='INCONCLUSIVE', reason='spurious: model %r does not reproduce on the real parse_decimal (%s)' % (text, rp.get('detail')))
-        else:
-            out.update(verdict='INCONCLUSIVE', reason='solver answered %s' % r)
+        elif reason:
+            out['reason'] = reason
         return out
 
     def replay(self, args):
@@ -419,6 +564,13 @@ def obligations(tier, seed):
         for idig in ((1, 2, 3) if q else (1, 2, 3, 4, 6)):
             obs.append(Ob(PROP, 'decimal', dict(k=k, idigits=idig, cross=not q, timeout=100 if q else 600), kind='direct', budget=120 if q else 700, group='decimal(z3x)',
                           bound=dict(fraction_digits=k, integer_digits=idig, sign='symbolic', format='binary64')))
+    # 16 and 17 significant digits: the digits as one integer exceed 2^53 (the exact quotient is modelled with a wide significand); 'dyadic' restricts the texts to
+    # those whose value is a binary64 number, so that a counterexample is a text str() really prints
+    wide = [(1, 15), (2, 14), (1, 16), (3, 13), (8, 8)] if q else [(1, 15), (2, 14), (1, 16), (3, 13), (8, 8), (4, 12), (5, 11), (2, 15), (6, 10), (15, 1), (16, 1)]
+    for k, idig in wide:
+        for dy in (True, False):
+            obs.append(Ob(PROP, 'decimal', dict(k=k, idigits=idig, dyadic=dy, cross=False, timeout=100 if q else 600), kind='direct', budget=150 if q else 700, group='decimal(z3x, 16-17 digits)',
+                          bound=dict(fraction_digits=k, integer_digits=idig, sign='symbolic', format='binary64', texts='value is a binary64 number' if dy else 'any')))
     obs.append(Ob(PROP, 'exp_form', {}, kind='direct', budget=60, group='exp_form'))
     for d in (9, 18, 19):
         obs.append(Ob(PROP, 'int_terms', dict(digits=d, cross=not q), kind='direct', budget=200, group='parse_int(z3x)', bound=dict(digits=d, sign='symbolic', value='any integer of that many digits (64-bit range and beyond)')))
